@@ -1180,12 +1180,14 @@ class OdeSystem(object):
             else:
                 return StateTuple(t=self.t[index], y=self.y[index], event=None)
         elif isinstance(index, slice):
+            # the recorded times are in the order the steps were taken: ascending only for forward runs
+            __dir = D.ar_numpy.sign(self.t[-1] - self.t[0])
             if index.start is not None:
-                start_idx = deutil.search_bisection(self.t[:self.counter + 1], index.start)
+                start_idx = deutil.search_bisection(__dir * self.t, __dir * index.start)
             else:
                 start_idx = 0
             if index.stop is not None:
-                end_idx = deutil.search_bisection(self.t[:self.counter + 1], index.stop) + 1
+                end_idx = deutil.search_bisection(__dir * self.t, __dir * index.stop) + 1
             else:
                 end_idx = self.counter + 1
             if index.step is not None:
